@@ -1,14 +1,218 @@
-import TF.Model.MmrSucc
-import TF.Spec.MmrE
+import TF.Proofs.MmrSucc
 /-!
-# C12 — MMR successor proofs are complete, sound and total  (work in progress: theorems follow)
+# C12 — MMR successor proofs are complete, sound and total
+
+Property theorems only (helper lemmas: `TF/Proofs/MmrE.lean`, `TF/Proofs/MmrSucc.lean`).
+
+Model: `TF.Model.MmrE.verify H dflt paths old new : Option Bool` is the hand model of
+`MmrSuccessorProof::verify` (`none` = panic or non-termination), `newFromBatchAppend` of `new_from_batch_append`;
+`Acc D = {count, peaks}` is `MmrAccumulator` as built by `MmrAccumulator::init(peaks, leaf_count)` — *any* pair.
+`H : D → D → D` is an arbitrary hash, `dflt` is `Digest::default()`.  The index function
+`leaf_index_to_mt_index_and_peak_index` inside `verify` is the term regenerated from `shared_basic.rs` on every run.
+
+Specification (`TF/Spec/MmrE.lean`), for a leaf list `g : Nat → D`:
+`sub H g l j` is the root of the perfect tree over leaves `j·2^l … (j+1)·2^l − 1`; `peaks H n g` are the peaks of the
+MMR over the first `n` leaves (highest first); `peakPos n` lists `(height, first leaf)` of every peak;
+`locate n i = (height, index in tree, peak index)` of the tree containing leaf `i`; `foldBlk H j v path` hashes the
+root `v` of aligned block `j` up along sibling digests; `succVerify` is the reference verifier; `succPathsOf H g m n`
+is the honest successor proof; `Collision H` is an explicit pair of distinct inputs with equal hash.
 -/
 namespace TF.C12
-open TF.Model.MmrE
+open TF.Model.MmrE TF.Spec.MmrE TF.MmrE
 
-/-- `verify` rejects when the old accumulator claims more leafs than the new one -/
-theorem verify_rejects_shrinking {D : Type} [DecidableEq D] (H : D → D → D) (dflt : D) (paths : List D)
-    (old new : Acc D) (h : old.count > new.count) : verify H dflt paths old new = some false := by
-  simp [verify, h]
+variable {D : Type} [DecidableEq D] (H : D → D → D) (dflt : D)
+
+/-- **totality**: on any two accumulators (any peak lists, consistent or not, any `u64` leaf counts) `verify` returns;
+    no `ilog2(0)`, no failed `assert!`, no index out of bounds, no arithmetic wrap, no endless loop.
+    (The only excluded inputs are peak vectors of ≥ 2^32 digests, see `verify_panics_iff`.) -/
+theorem verify_total (paths : List D) (old new : Acc D) (hoc : old.count < 2 ^ 64) (hnc : new.count < 2 ^ 64)
+    (hlen : new.peaks.length < 2 ^ 32) : ∃ b, verify H dflt paths old new = some b :=
+  ⟨_, verify_eq_spec H dflt paths old new hoc hnc hlen⟩
+example : ∃ b, verify (fun a b : Nat => a + 2 * b) 0 [] ⟨1, [7, 8]⟩ ⟨1, [7]⟩ = some b :=
+  verify_total _ _ _ _ _ (by decide) (by decide) (by decide)
+
+/-- the panic branch: `verify` fails to return exactly when the new peak list does not fit a `u32` length
+    (`len().try_into().unwrap()`) and the leaf counts did not already decide -/
+theorem verify_panics_iff (paths : List D) (old new : Acc D) (hoc : old.count < 2 ^ 64) (hnc : new.count < 2 ^ 64) :
+    verify H dflt paths old new = none ↔ old.count ≤ new.count ∧ 2 ^ 32 ≤ new.peaks.length := by
+  by_cases h1 : old.count > new.count
+  · unfold verify; rw [if_pos h1]
+    constructor
+    · intro h; cases h
+    · intro h; omega
+  · by_cases h2 : new.peaks.length ≥ 2 ^ 32
+    · unfold verify; rw [if_neg h1, if_pos h2]
+      constructor
+      · intro _; omega
+      · intro _; rfl
+    · rw [verify_eq_spec H dflt paths old new hoc hnc (by omega)]
+      constructor
+      · intro h; cases h
+      · intro h; omega
+
+/-- **exactness**: `verify` computes the reference verifier -/
+theorem verify_exact (paths : List D) (old new : Acc D) (hoc : old.count < 2 ^ 64) (hnc : new.count < 2 ^ 64)
+    (hlen : new.peaks.length < 2 ^ 32) :
+    verify H dflt paths old new = some (succVerify H paths old.count old.peaks new.count new.peaks) :=
+  verify_eq_spec H dflt paths old new hoc hnc hlen
+
+/-- structurally inconsistent old accumulator (peak list length ≠ number of set bits of the leaf count — more peaks
+    used to panic, fewer used to be accepted, finding F3): rejected, never a panic, never accepted -/
+theorem verify_rejects_inconsistent_old (paths : List D) (old new : Acc D) (hlen : new.peaks.length < 2 ^ 32)
+    (h : TF.popCount old.count ≠ old.peaks.length) : verify H dflt paths old new = some false := by
+  unfold verify
+  have hl : ¬ (new.peaks.length ≥ 2 ^ 32) := by omega
+  by_cases h1 : old.count > new.count
+  · rw [if_pos h1]
+  · by_cases h2 : TF.popCount new.count ≠ new.peaks.length
+    · rw [if_neg h1, if_neg hl, if_pos h2]
+    · rw [if_neg h1, if_neg hl, if_neg h2, if_pos h]
+example : verify (fun a b : Nat => a + b) 0 [] ⟨5, []⟩ ⟨5, [1, 2]⟩ = some false :=
+  verify_rejects_inconsistent_old _ _ _ _ _ (by decide) (by simp [TF.popCount])
+example : verify (fun a b : Nat => a + b) 0 [] ⟨1, [1, 2]⟩ ⟨1, [1]⟩ = some false :=
+  verify_rejects_inconsistent_old _ _ _ _ _ (by decide) (by simp [TF.popCount])
+
+/-- structurally inconsistent new accumulator: rejected -/
+theorem verify_rejects_inconsistent_new (paths : List D) (old new : Acc D) (hlen : new.peaks.length < 2 ^ 32)
+    (h : TF.popCount new.count ≠ new.peaks.length) : verify H dflt paths old new = some false := by
+  unfold verify
+  have hl : ¬ (new.peaks.length ≥ 2 ^ 32) := by omega
+  by_cases h1 : old.count > new.count
+  · rw [if_pos h1]
+  · rw [if_neg h1, if_neg hl, if_pos h]
+example : verify (fun a b : Nat => a + b) 0 [] ⟨0, []⟩ ⟨2, [1, 2]⟩ = some false :=
+  verify_rejects_inconsistent_new _ _ _ _ _ (by decide) (by simp [TF.popCount])
+
+/-- an old accumulator with more leafs than the new one is rejected -/
+theorem verify_rejects_shrinking (paths : List D) (old new : Acc D) (h : old.count > new.count) :
+    verify H dflt paths old new = some false := by
+  unfold verify; rw [if_pos h]
+
+/-- **soundness, structural form (an equivalence)**: `verify` accepts iff both accumulators are consistent, the old
+    one is not longer, and the digest list splits — completely, in order — into one segment per old peak such that
+    the old peak with height `h` and first leaf `s` hashes, with exactly its segment of
+    `height(new tree above s) − h` digests, left/right by the position of its block, into the new peak that covers
+    leaf `s`. -/
+theorem verify_accepts_iff (paths : List D) (old new : Acc D) (hoc : old.count < 2 ^ 64) (hnc : new.count < 2 ^ 64)
+    (hlen : new.peaks.length < 2 ^ 32) :
+    verify H dflt paths old new = some true ↔
+      old.count ≤ new.count ∧ TF.popCount new.count = new.peaks.length ∧ TF.popCount old.count = old.peaks.length ∧
+      ∃ segs : List (List D), segs.flatten = paths ∧ segs.length = old.peaks.length ∧
+        ∀ (i : Nat) (p : D) (q : Nat × Nat) (seg : List D),
+          old.peaks[i]? = some p → (peakPos old.count)[i]? = some q → segs[i]? = some seg →
+          q.1 ≤ (locate new.count q.2).1 ∧ seg.length = (locate new.count q.2).1 - q.1 ∧
+          new.peaks[(locate new.count q.2).2.2]? = some (foldBlk H (q.2 / 2 ^ q.1) p seg) := by
+  rw [verify_eq_spec H dflt paths old new hoc hnc hlen]
+  simp only [Option.some.injEq, succVerify, Bool.and_eq_true, decide_eq_true_eq]
+  constructor
+  · rintro ⟨⟨⟨h1, h2⟩, h3⟩, h4⟩
+    exact ⟨h1, h2, h3, succGo_sound H new.count new.peaks _ _ _ (by rw [peakPos_length, h3]) h4⟩
+  · rintro ⟨h1, h2, h3, segs, hs1, hs2, hs3⟩
+    refine ⟨⟨⟨h1, h2⟩, h3⟩, ?_⟩
+    rw [← hs1]
+    exact succGo_complete H new.count new.peaks _ _ segs (by rw [peakPos_length, h3]) hs2 hs3
+
+/-- **soundness over leaf ranges**: if the new accumulator commits to the leaf list `g` (its peaks are the roots of
+    the perfect trees over `g 0 … g (new.count−1)`), then an accepted proof shows that the old accumulator commits to
+    the first `old.count` leaves of the same list, and the digests are exactly the honest sibling digests — or an
+    explicit collision of the hash function is exhibited. -/
+theorem verify_sound_leaves (g : Nat → D) (paths : List D) (old new : Acc D) (hoc : old.count < 2 ^ 64)
+    (hnc : new.count < 2 ^ 64) (hlen : new.peaks.length < 2 ^ 32) (hnew : new.peaks = peaks H new.count g)
+    (h : verify H dflt paths old new = some true) :
+    (old.peaks = peaks H old.count g ∧ paths = succPathsOf H g old.count new.count) ∨ Collision H := by
+  rw [verify_eq_spec H dflt paths old new hoc hnc hlen] at h
+  simp only [Option.some.injEq, succVerify, Bool.and_eq_true, decide_eq_true_eq] at h
+  obtain ⟨⟨⟨h1, _⟩, h3⟩, h4⟩ := h
+  rw [hnew] at h4
+  have hin : ∀ q ∈ peakPos old.count, q.2 < new.count := by
+    intro q hq
+    have := (peakPos_mem old.count q hq).2
+    have : 0 < 2 ^ q.1 := Nat.pow_pos (by omega)
+    omega
+  rcases succGo_honest H g new.count _ _ _ (by rw [peakPos_length, h3]) hin h4 with ⟨ho, hp⟩ | hc
+  · exact Or.inl ⟨by rw [peaks_eq_map]; exact ho, hp⟩
+  · exact Or.inr hc
+
+/-- **every digest and every old peak is bound**: two accepted triples with the same leaf counts and the same new
+    peaks have the same old peaks and the same digest list (so an altered, dropped, added or reordered digest, or
+    an altered old peak, is rejected) — or exhibit a collision. -/
+theorem verify_binds_paths_and_old_peaks (paths paths' : List D) (old old' new : Acc D) (hoc : old.count < 2 ^ 64)
+    (hnc : new.count < 2 ^ 64) (hlen : new.peaks.length < 2 ^ 32) (hcount : old'.count = old.count)
+    (h : verify H dflt paths old new = some true) (h' : verify H dflt paths' old' new = some true) :
+    (old.peaks = old'.peaks ∧ paths = paths') ∨ Collision H := by
+  rw [verify_eq_spec H dflt paths old new hoc hnc hlen] at h
+  rw [verify_eq_spec H dflt paths' old' new (by omega) hnc hlen] at h'
+  simp only [Option.some.injEq, succVerify, Bool.and_eq_true, decide_eq_true_eq, hcount] at h h'
+  obtain ⟨⟨_, h3⟩, h4⟩ := h
+  obtain ⟨⟨_, h3'⟩, h4'⟩ := h'
+  exact succGo_inj H new.count new.peaks _ _ _ _ _ (by rw [peakPos_length, h3]) (by rw [peakPos_length, h3']) h4 h4'
+
+/-- **new peaks over old leafs are bound, the others are free**: given one accepted triple, replacing the new
+    accumulator by another consistent one with the same leaf count is accepted *iff* the new peaks above the old
+    peaks (those covering leafs of the old range) are unchanged; peaks made only of appended leafs may be anything. -/
+theorem verify_new_peaks_constraint (paths : List D) (old new new' : Acc D) (hoc : old.count < 2 ^ 64)
+    (hnc : new.count < 2 ^ 64) (hlen : new.peaks.length < 2 ^ 32) (hcount : new'.count = new.count)
+    (hlen' : new'.peaks.length = new.peaks.length) (h : verify H dflt paths old new = some true) :
+    verify H dflt paths old new' = some true ↔
+      ∀ q ∈ peakPos old.count, new'.peaks[(locate new.count q.2).2.2]? = new.peaks[(locate new.count q.2).2.2]? := by
+  rw [verify_eq_spec H dflt paths old new hoc hnc hlen] at h
+  rw [verify_eq_spec H dflt paths old new' hoc (by omega) (by omega)]
+  simp only [Option.some.injEq, succVerify, Bool.and_eq_true, decide_eq_true_eq, hcount, hlen'] at h ⊢
+  obtain ⟨⟨⟨h1, h2⟩, h3⟩, h4⟩ := h
+  constructor
+  · rintro ⟨_, h4'⟩
+    exact succGo_np_agree H new.count new.peaks new'.peaks _ _ _ (by rw [peakPos_length, h3]) h4 h4'
+  · intro hall
+    refine ⟨⟨⟨h1, h2⟩, h3⟩, ?_⟩
+    rw [succGo_congr_np H new.count new'.peaks new.peaks _ _ _ hall]
+    exact h4
+
+/-- **completeness of the honest proof**: for every leaf list and every `m ≤ n < 2^64` the honest successor proof
+    (for each old peak its sibling digests up to the new peak above it, highest old peak first) is accepted between
+    the accumulators of the first `m` and the first `n` leaves -/
+theorem honest_proof_verifies (g : Nat → D) (m n : Nat) (hmn : m ≤ n) (hn : n < 2 ^ 64) :
+    verify H dflt (succPathsOf H g m n) ⟨m, peaks H m g⟩ ⟨n, peaks H n g⟩ = some true := by
+  have hl : (peaks H n g).length < 2 ^ 32 := by
+    rw [peaks_length]
+    have := popCount_lt_two_pow 64 n hn
+    omega
+  rw [verify_eq_spec H dflt _ _ _ (by simp only; omega) hn hl]
+  simp only [succVerify, hmn, peaks_length, decide_true, Bool.true_and, Option.some.injEq]
+  rw [peaks_eq_map H m g]
+  exact succGo_honest_complete H g n (peakPos m) (fun q hq => by
+    have := peakPos_mem m q hq
+    exact ⟨this.1, by omega⟩)
+example : (3 : Nat) ≤ 5 ∧ 5 < 2 ^ 64 := by decide
+
+/-- the full completeness claim of the property: for every consistent accumulator and every list of appended leafs
+    the generated proof verifies between the old accumulator and the resulting one (stated, not yet proved in
+    general: see `new_from_batch_append_verifies_partial` and the bounded test `mmrs free_check`) -/
+def new_from_batch_append_verifies_statement : Prop :=
+  ∀ (D : Type) [DecidableEq D] (H : D → D → D) (dflt : D) (old : Acc D) (leafs : List D),
+    TF.popCount old.count = old.peaks.length → old.count + leafs.length < 2 ^ 63 →
+    ∃ new paths, Acc.appendAll H leafs old = some new ∧ newFromBatchAppend H dflt old leafs = some paths ∧
+      verify H dflt paths old new = some true
+
+/-- what is proved of it: for accumulators over a leaf list `g`, *if* the appends yield the from-scratch peaks (C11)
+    and `new_from_batch_append` returns the honest sibling digests (the node-index theory of C16; checked for every
+    pair with old + appended ≤ 64 over a free hash algebra by the test `mmrs free_check`, and on the implementation
+    by the correspondence), then the generated proof verifies — for all sizes below `2^64`. -/
+theorem new_from_batch_append_verifies_partial (g : Nat → D) (m k : Nat) (hn : m + k < 2 ^ 64)
+    (happend : Acc.appendAll H ((List.range k).map (fun i => g (m + i))) ⟨m, peaks H m g⟩
+      = some ⟨m + k, peaks H (m + k) g⟩)
+    (hgen : newFromBatchAppend H dflt ⟨m, peaks H m g⟩ ((List.range k).map (fun i => g (m + i)))
+      = some (succPathsOf H g m (m + k))) :
+    ∃ new paths, Acc.appendAll H ((List.range k).map (fun i => g (m + i))) ⟨m, peaks H m g⟩ = some new ∧
+      newFromBatchAppend H dflt ⟨m, peaks H m g⟩ ((List.range k).map (fun i => g (m + i))) = some paths ∧
+      verify H dflt paths ⟨m, peaks H m g⟩ new = some true :=
+  ⟨_, _, happend, hgen, honest_proof_verifies H dflt g m (m + k) (by omega) hn⟩
+
+/-! concrete accepted / rejected triples (non-vacuity of the hypotheses above), hash `a, b ↦ a + 2·b` on `Nat` -/
+example : verify (fun a b : Nat => a + 2 * b) 0 [5] ⟨1, [3]⟩ ⟨2, [13]⟩ = some true := by decide +kernel
+example : verify (fun a b : Nat => a + 2 * b) 0 [] ⟨1, [3]⟩ ⟨2, [13]⟩ = some false := by decide +kernel
+example : verify (fun a b : Nat => a + 2 * b) 0 [5] ⟨1, [4]⟩ ⟨2, [13]⟩ = some false := by decide +kernel
+example : verify (fun a b : Nat => a + 2 * b) 0 [5] ⟨1, [3]⟩ ⟨3, [13, 99]⟩ = some true := by decide +kernel
+example : verify (fun a b : Nat => a + 2 * b) 0 [5] ⟨1, [3]⟩ ⟨3, [13, 100]⟩ = some true := by decide +kernel
+example : newFromBatchAppend (fun a b : Nat => a + 2 * b) 0 ⟨1, [3]⟩ [5] = some [5] := by decide +kernel
 
 end TF.C12
